@@ -14,10 +14,10 @@ pub struct ArgList {
 }
 
 impl PartialEq for ArgList {
+    /// Argument lists are compared as the lists of their positional arguments.
+    /// Keyword arguments do not take part in equality
     fn eq(&self, other: &Self) -> bool {
         self.elems == other.elems
-            && self.keywords == other.keywords
-            && self.separator == other.separator
     }
 }
 
